@@ -195,7 +195,19 @@ def run(ck):
     ck.stream("histories", cases, "C05_run", "C05", "C05_ok",
               nontrivial=lambda c: sum(1 for o in c[1] if o[0] == 1) >= 2 and any(o[0] == 4 for o in c[1]),
               sig=lambda c, e, o: "registry-history")
-    return ck.finish(rule="60% random, 13% retire-task-shaped (a stream with viewers is replaced, the scheduler's pending idle-close jobs are run — "
+    # consumer ids: media.NewCID against Model/C05Cid.v on seeds around every boundary of the 30-bit sequence
+    M = 0x3fffffff
+    cc = []
+    for t in (0, 1):
+        for s in [0, 1, 2, 5, 1000, M - 3, M - 2, M - 1, M, M + 1, M + 2, 2 * M, 2 * M + 1, 2 * M + 2, (1 << 31) - 3, (1 << 31) - 2,
+                  (1 << 31) - 1, 1 << 31, (1 << 31) + 5, 3 * (M + 1) - 2, 3 * (M + 1), (1 << 32) - 3, (1 << 32) - 2]:
+            cc.append([t, s])
+        for _ in range(2000 if ck.thorough else 150):
+            cc.append([t, rng.choice([rng.randrange(0, M + 3), rng.randrange(0, (1 << 32) - 1), M - rng.randrange(0, 40)])])
+    ck.stream("consumer-ids", cc, "C05_cid_run", "C05_cid", "C05_cid_ok", nontrivial=lambda c: c[1] >= M - 40,
+              sig=lambda c, e, o: "consumer-id-type", sample=2)
+    return ck.finish(rule="consumer ids: media.NewCID on both packet types and seeds 0..2^32-2 (dense around 2^30-1, 2^31-1, 3*2^30) judged by the oracle of "
+                          "C05_consumer_id_keeps_its_type; histories: 60% random, 13% retire-task-shaped (a stream with viewers is replaced, the scheduler's pending idle-close jobs are run — "
                           "scheduler.Jobs() / Job().Run() — before and after the viewers leave), 14% HLS-shaped (a stream with a playlist polled in every playlist state, segment fetches, clock "
                           "ticks, the idle decision with a period around the time since the last access, then lookup / count), 13% replacement-shaped (publisher replaced under another spelling, old publisher leaves late, "
                           "registry-borne end, then lookup / count / list) histories of new/regist/unregist/close/get/count/list/attach/detach/idle-decision(period)/unregist-all/clock-tick/hls-segment/playlist-request/segment-request over three paths in "
